@@ -13,7 +13,7 @@ from vlib.core import Info, SubCheck, Violation, require
 PROPERTY = "C04"
 LEVEL = "exploration"
 RULE = (
-    "fil: prep_outfile(nbits in {1,2,4,8,16,32}) x in-memory dtype {uint8,uint16,int64,float32,float64} x values "
+    "fil: sequences of 1-3 writes in one process, each prep_outfile(nbits in {1,2,4,8,16,32}; from a Header object of the same or another depth; nbits keyword / default / with updates) x in-memory dtype {uint8,uint16,int64,float32,float64} x values "
     "representable in both x (nsamps 1-20, whole-byte nchans) x 1-3 cwrite chunks on sample boundaries; block: "
     "FilterbankBlock.to_file; tim/dat: TimeSeries.to_tim/from_tim, to_dat/from_dat(+.inf); spec/fft: "
     "FourierSeries.to_spec/from_spec, to_fft/from_fft(+.inf), arbitrary finite float32 payloads compared bitwise. "
@@ -78,9 +78,19 @@ def strat_fil_case(draw):
     dtype = draw(st.sampled_from(DTYPES))
     nchunks = draw(st.integers(1, min(3, nsamps)))
     cuts = sorted(draw(st.lists(st.integers(1, nsamps - 1), min_size=nchunks - 1, max_size=nchunks - 1, unique=True))) if nchunks > 1 else []
-    return {"nbits": nbits, "nchans": nchans, "nsamps": nsamps, "dtype": dtype, "cuts": cuts,
+    # depth of the Header object the writer is prepared from: often different from the output depth
+    # (prep_outfile(nbits=X) on a header of another depth is how requantize / to_tim / subband write)
+    hdr_nbits = draw(st.sampled_from([nbits, nbits, 8, 32, 4, 16]))
+    return {"nbits": nbits, "hdr_nbits": hdr_nbits, "nchans": nchans, "nsamps": nsamps, "dtype": dtype, "cuts": cuts,
             "seed": draw(st.integers(0, 2**31 - 1)), "meta": draw(meta),
-            "float_kind": draw(st.sampled_from(["int", "any"]))}
+            "float_kind": draw(st.sampled_from(["int", "any"])),
+            "style": draw(st.sampled_from(["nbits_kw", "nbits_kw", "default", "updates"]))}
+
+
+@st.composite
+def strat_fil_seq(draw):
+    """A sequence of 1-3 writes in one process (state leaking from one prepared file into the next is in scope)."""
+    return {"writes": draw(st.lists(strat_fil_case(), min_size=1, max_size=3))}
 
 
 def fil_values(case):
@@ -103,20 +113,44 @@ def fil_values(case):
     return rng.integers(0, top + 1, size=shape).astype(dtype)
 
 
-def check_fil(case, ctx):
+def check_fil_seq(case, ctx):
+    d = ctx.fresh_dir()
+    labels = []
+    nontrivial = False
+    for i, w in enumerate(case["writes"]):
+        info = check_fil(w, ctx, d=d, name=f"out{i}.fil", step=i)
+        labels += list(info.labels)
+        nontrivial = nontrivial or info.nontrivial
+    labels.append(f"writes{len(case['writes'])}")
+    return Info(nontrivial, tuple(labels))
+
+
+def check_fil(case, ctx, d=None, name="out.fil", step=0):
     from sigpyproc.readers import FilReader
 
-    d = ctx.fresh_dir()
-    path = os.path.join(d, "out.fil")
+    if d is None:
+        d = ctx.fresh_dir()
+    path = os.path.join(d, name)
     nbits, nchans, N = case["nbits"], case["nchans"], case["nsamps"]
     m = case["meta"]
     vals = fil_values(case)
     file_dtype = np.dtype(sigfile.NP_DTYPE[nbits])
     matching = np.dtype(case["dtype"]) == file_dtype
-    hdr = mk_header(path, nbits, nchans, N, **m)
+    hdr_nbits = case.get("hdr_nbits", nbits)
+    style = case.get("style", "nbits_kw")
+    if style == "default":
+        hdr_nbits = nbits  # prep_outfile(path) writes at the header's own depth
+    hdr = mk_header(path, hdr_nbits, nchans, N, **m)
     labels = [f"{nbits}bit", case["dtype"], "match" if matching else "mismatch"]
+    if hdr_nbits != nbits:
+        labels.append("header_depth_differs")
     try:
-        out = hdr.prep_outfile(path, nbits=nbits)
+        if style == "default":
+            out = hdr.prep_outfile(path)
+        elif style == "updates":
+            out = hdr.prep_outfile(path, updates={"source": "SEQ"}, nbits=nbits)
+        else:
+            out = hdr.prep_outfile(path, nbits=nbits)
     except Exception as exc:  # noqa: BLE001
         raise Violation("fil:prep_outfile-raised", f"{exc!r}") from exc
     bounds = [0] + case["cuts"] + [N]
@@ -139,9 +173,10 @@ def check_fil(case, ctx):
     pf = sigfile.parse_file(path)
     want_size = pf["hdrlen"] + N * nchans * nbits // 8
     if pf["size"] != want_size:
-        raise Violation("fil:width-mismatch", f"nbits={nbits} dtype={case['dtype']} N={N} nchans={nchans}: file has "
+        raise Violation("fil:width-mismatch", f"write #{step} nbits={nbits} (header object depth {hdr_nbits}, {style}) dtype={case['dtype']} N={N} nchans={nchans}: file has "
                         f"{pf['size'] - pf['hdrlen']} data bytes, header declares {N * nchans * nbits // 8}")
-    require(pf["hdr"].get("nbits") == nbits and pf["hdr"].get("nchans") == nchans, "fil:header-fields", f"{pf['hdr']}")
+    if pf["hdr"].get("nbits") != nbits or pf["hdr"].get("nchans") != nchans:
+        raise Violation("fil:declared-depth", f"write #{step}: prepared for {nbits} bits from a {hdr_nbits}-bit header ({style}); the file declares nbits={pf['hdr'].get('nbits')} nchans={pf['hdr'].get('nchans')}")
     ind = sigfile.decode_samples(pf["data"], nbits, nchans)
     want = vals.astype(file_dtype)
     if not same_bits(ind, want):
@@ -310,7 +345,7 @@ def check_fs(case, ctx):
 
 def subchecks(tier):
     return [
-        SubCheck("fil", check_fil, strategy=lambda t: strat_fil_case(),
+        SubCheck("fil", check_fil_seq, strategy=lambda t: strat_fil_seq(),
                  examples={"quick": 1500, "thorough": 80000}, shards={"quick": 5, "thorough": 16}),
         SubCheck("block", check_block, strategy=lambda t: strat_block_case(),
                  examples={"quick": 300, "thorough": 10000}, shards={"quick": 2, "thorough": 4}),
